@@ -353,6 +353,7 @@ func (m *FloodSub) handleValidMessage(
 	if _, ok := m.seenMessages.Get(msgId); ok {
 		return
 	}
+	simhook.Yield("floodsub/seen-check", channelID)
 	m.seenMessages.Set(msgId, pkt, 0)
 
 	pid, err := peer.IDB58Decode(pkt.GetFromPeerId())
